@@ -206,3 +206,37 @@ def ad_layer(E, s):
         E.true('grad_present_%d' % k, p.grad is not None and list(p.grad.shape) == list(p.shape))
         if p.grad is not None:
             E.eq('grad_%d' % k, p.grad, r)
+
+
+@scenario
+def ad_factory(E, s):
+    """gradients with respect to the cores of an object made by a factory (ones, zeros, eye): the derivative
+    with respect to core k is the one obtained when every core is an independent variable"""
+    tn, tt = E.tn, E.tt
+    N = list(s['N'])
+    d = len(N)
+    kind = s['kind']
+    if kind == 'ones':
+        x = tt.ones(N, dtype=tn.float64)
+    elif kind == 'zeros':
+        x = tt.zeros(N, dtype=tn.float64)
+    elif kind == 'eye':
+        x = tt.eye(N, dtype=tn.float64)
+    else:
+        raise ValueError(kind)
+    shape = list(x.M) + list(x.N) if x.is_ttm else list(x.N)
+    w = E.tensor('w', shape, 'float64')
+    # reference: independent copies of the cores
+    ref_cores = [c.detach().clone() for c in x.cores]
+    for c in ref_cores:
+        c.requires_grad_(True)
+    f_ref = tn.sum(dense(E, ref_cores) * w)
+    refs = [E.grad_of(f_ref, c) for c in ref_cores]
+    tt.grad.watch(x)
+    f_tt = tn.sum(x.full() * w)
+    g = tt.grad.grad(f_tt, x)
+    E.true('count', len(g) == d)
+    for k in range(d):
+        E.true('grad_shape_%d' % k, g[k] is not None and list(g[k].shape) == list(x.cores[k].shape))
+        if g[k] is not None:
+            E.eq('grad_%d' % k, g[k], refs[k])
